@@ -2,7 +2,7 @@
 import itertools
 from facts import Node, strip_targs, Inconclusive
 from symex import Lin, Unknown, Ref, Closure, Sym, Exec, as_lin
-from evdom import EvDomain, Ev, run_paths, _flatten
+from evdom import EvDomain, Ev, run_paths, _flatten, loop_conds, loop_visits
 import common
 
 TUS = ['witness/w_observer.cpp']
@@ -11,18 +11,95 @@ INSERT_FRONT = {'emplace_front', 'push_front'}
 INSERT_BACK = {'emplace_back', 'push_back'}
 
 
+OBS, ACT, CNT = 'm_observers', 'm_activeSubscriptions', 'm_subscriptionCounter'
+REMOVALS = ('remove_if', 'erase', 'remove', 'erase_after', 'erase_if', 'pop_front', 'pop_back', 'clear')
+INSERTS = INSERT_FRONT | INSERT_BACK | {'insert', 'emplace', 'insert_after', 'emplace_after'}
+
+
 class ObsDomain(EvDomain):
+    """atoms: id_active (the id under test is in the active set), obs_valid (Observer::isValid() after the call), observers_empty,
+    muted, same_subject.  Every consultation of id_active leaves a `consult` event, however the test is spelled
+    (contains / count / find != end)."""
     loop_unroll = 1
     max_depth = 6
 
+    def consult(self, key, st, fr, n):
+        v = self.atom(key)
+        if v is not None: self.ev(st, Ev('consult', n, name=key, val=v), fr)
+        return v
+
     def call_result(self, ex, n, q, base, on, ov, vals, st, fr):
-        if on == 'm_activeSubscriptions' and base in ('contains',):
-            v = self.atom('id_active'); return v if v is not None else Unknown(('contains', n.id))
-        if on == 'm_activeSubscriptions' and base in ('count',):
-            v = self.atom('id_active'); return Lin.const(1 if v else 0) if v is not None else Unknown(('count', n.id))
-        if on == 'm_observers' and base == 'empty':
+        if on == ACT and base == 'contains':
+            v = self.consult('id_active', st, fr, n); return v if v is not None else Unknown(('contains', n.id))
+        if on == ACT and base == 'count':
+            v = self.consult('id_active', st, fr, n); return Lin.const(1 if v else 0) if v is not None else Unknown(('count', n.id))
+        if on == ACT and base == 'find': return Sym(f'{ACT}.find')
+        if on == OBS and base == 'empty':
             v = self.atom('observers_empty'); return v if v is not None else Unknown(('empty', n.id))
+        if base in ('operator==', 'operator!='):
+            ops = [x for x in ([ov] + list(vals)) if x is not None]
+            ops = [ex.read(x.loc, st, n) if isinstance(x, Ref) else x for x in ops]
+            r = self.compare(ex, '==' if base == 'operator==' else '!=', ops[0], ops[1], n, st, fr) if len(ops) == 2 else None
+            if r is not None: return r
         return super().call_result(ex, n, q, base, on, ov, vals, st, fr)
+
+    def compare(self, ex, op, l, r, n, st, fr):
+        names = {x.name for x in (l, r) if isinstance(x, Sym)}
+        if names == {f'{ACT}.find', f'{ACT}.end'} and op in ('==', '!='):
+            v = self.consult('id_active', st, fr, n)
+            if v is not None: return v if op == '!=' else (not v)
+        if names == {f'{OBS}.begin', f'{OBS}.end'} and op in ('==', '!='):
+            v = self.atom('observers_empty')
+            if v is not None: return v if op == '==' else (not v)
+        for a, b, o in ((l, r, op), (r, l, {'<': '>', '>': '<', '<=': '>=', '>=': '<=', '==': '==', '!=': '!='}.get(op, op))):
+            if isinstance(a, Lin) and a.t == {f'{OBS}.size': 1} and a.c == 0 and isinstance(b, Lin) and b.is_const() and b.c == 0:
+                v = self.atom('observers_empty')
+                if v is not None: return {'==': v, '!=': not v, '>': not v, '<=': v, '<': False, '>=': True}.get(o)
+            if isinstance(a, Lin) and a.is_const() and a.c in (0, 1) and isinstance(b, Lin) and b.is_const() and False: pass
+        if op in ('==', '!=') and isinstance(l, Ref) and isinstance(r, Ref):
+            if l.loc == r.loc: return op == '=='
+            def is_tmp(loc):
+                if (loc[0] == 'f' and loc[1] and loc[1][0] == 'tmp') or loc[0] == 'tmp': return True
+                v = st.store.get(loc)
+                return (isinstance(v, Sym) and v.name.startswith('obj:')) or type(v).__name__ == 'Record'      # a freshly constructed local / temporary object
+            if is_tmp(l.loc) or is_tmp(r.loc): return op == '!='         # a temporary is no other object
+        if 'same_subject' in self.oracle and op in ('==', '!='):
+            # handle.m_subject (or what getSubject() returns) against `this`
+            this_side = [x for x in (l, r) if isinstance(x, Ref) and x.loc == ('f', ('this',))]
+            subj_side = [x for x in (l, r) if 'm_subject' in repr(x)]
+            if this_side and subj_side:
+                v = self.atom('same_subject'); return v if op == '==' else (not v)
+        return None
+
+    # std::any_of / all_of / none_of over [X.begin(), X.end()): the predicate is evaluated on a representative element
+    def sync_closures(self, ex, n, st, fr):
+        q = strip_targs(n.calleeq or '')
+        if q in ('std::any_of', 'std::all_of', 'std::none_of'):
+            args = [a for a in n.ns('args') if a is not None]
+            v0 = fr.vals.get(args[0].id) if args else None
+            clo = next((fr.vals.get(a.id) for a in args if isinstance(fr.vals.get(a.id), Closure)), None)
+            if isinstance(v0, Sym) and v0.name.endswith('.begin') and clo is not None and clo.fn is not None:
+                X = v0.name[:-6]
+                self._algo = getattr(self, '_algo', {})
+                self._algo[n.id] = [X, None]
+                return [(clo, [Sym(X + '.front')])]
+        return super().sync_closures(ex, n, st, fr)
+
+    def after_closure(self, ex, n, clo, ret, st):
+        if n.id in getattr(self, '_algo', {}):
+            self._algo[n.id][1] = ret; return None
+        return super().after_closure(ex, n, clo, ret, st)
+
+    def ext_call(self, ex, n, st, fr):
+        if n.k == 'call' and n.id in getattr(self, '_algo', {}):
+            X, ret = self._algo[n.id]
+            q = strip_targs(n.calleeq or '')
+            empty = self.atom('observers_empty') if X == OBS else None
+            self.ev(st, Ev('call', n, name=q, obj=None), fr)
+            if empty is True: return q != 'std::any_of'
+            if empty is False and isinstance(ret, bool): return ret if q == 'std::any_of' else (ret if q == 'std::all_of' else (not ret))
+            return Unknown((q, n.id))
+        return super().ext_call(ex, n, st, fr)
 
     def vcall_result(self, ex, n, q, base, on, ov, vals, st, fr):
         if base == 'isValid':
@@ -44,21 +121,6 @@ def member(facts, cls, name):
     return c[0] if c else None
 
 
-def loops_of(fn):
-    return [n for n in fn.nodes() if n.k in ('rangefor', 'for', 'while')]
-
-
-def range_target(loop):
-    """('field', name) / ('local', decl, name) / None: what a range-for iterates"""
-    if loop.k != 'rangefor': return None
-    r = loop.n('range')
-    while r is not None and r.k in ('cast',): r = r.n('sub')
-    if r is None: return None
-    if r.k == 'member' and r.field: return ('field', r.name)
-    if r.k == 'ref' and r.dk in ('local', 'param'): return ('local', r.decl, r.name)
-    return None
-
-
 def contains(node, pred):
     return any(pred(x) for x in node.walk())
 
@@ -67,10 +129,37 @@ def is_observer_call(n):
     return n.k == 'call' and strip_targs(n.calleeq or '') == 'tulz::Observer::operator()'
 
 
+def on_container(e, cont, bases):
+    """call event on container `cont` (member call, or a free algorithm such as std::erase_if(cont, ...)) with one of the base names"""
+    if e.kind != 'call': return False
+    b = e.name.split('::')[-1]
+    if b not in bases: return False
+    return e.obj == cont or (e.obj is None and e.argobjs and e.argobjs[0] == cont)
+
+
 class SubjectAnalysis:
     def __init__(self, facts, rep):
-        self.facts = facts; self.rep = rep; self.res = {}
-        self.subs = subjects(facts)
+        self.rep = rep; self.res = {}
+        self.subs0 = subjects(facts)
+        # roles: the observer table, the set of active ids, the id counter — by type, whatever they are called
+        import roles
+        per = {}; self.unfit = []
+        for S in self.subs0:
+            fm, entry, why = roles.infer_subject(facts, S)
+            if fm is None: self.unfit.append((S, why)); continue
+            per[S] = (fm, entry)
+        ren = {}
+        for S, (fm, (ecls, em)) in per.items():
+            for k, v in list(fm.items()) + list(em.items()):
+                if k != v: ren[k] = v
+        if ren:
+            facts = roles.renamed_subject_facts(facts, per)
+            rep.assume('Subject members recognised by role (type), reported under their canonical names: ' + ', '.join(f'{k} = {v}' for k, v in sorted(ren.items())))
+        self.facts = facts
+        self.subs = [S for S in self.subs0 if S in per]
+        if self.unfit:
+            S, why = self.unfit[0]
+            rep.anchor_missing(f'{S} data layout', why)
 
     def add(self, rule, ok, inst, site, why='', key=None):
         if ok is not None: ok = bool(ok)
@@ -79,14 +168,14 @@ class SubjectAnalysis:
     def run(self):
         for S in self.subs:
             short = S.replace('std::basic_string<char>', 'std::string')
-            fns = {n: member(self.facts, S, n) for n in ('notify', 'subscribe', 'unsubscribe', 'unsubscribeById', 'isSubscriptionIdValid', 'hasSubscriptions', 'isSubscriptionValid')}
+            fns = {n: member(self.facts, S, n) for n in ('notify', 'subscribe', 'unsubscribe', 'hasSubscriptions', 'isSubscriptionValid')}
             missing = [n for n, f in fns.items() if f is None]
             if missing:
                 # implicitly instantiated through Observable: only some members exist; the explicit witnesses cover the class
                 self.partial = getattr(self, 'partial', []) + [S]
-                if len(missing) == len(fns): continue
-                if fns['notify'] is None or fns['subscribe'] is None: continue
                 continue
+            self.fields = {f['name'] for f in self.facts.cls(S)['fields']}
+            self.no_counter = CNT not in self.fields
             self.notify_rules(S, short, fns)
             self.subscribe_rules(S, short, fns)
             self.unsubscribe_rules(S, short, fns)
@@ -94,55 +183,36 @@ class SubjectAnalysis:
         self.subscription_rules()
 
     # ---- notify ---------------------------------------------------------------------------------------------------------
+    def _deliver_loop(self, f):
+        """(loop node, function that contains it) for the innermost loop from which Observer::operator() is reached (helpers followed)"""
+        def reaches(fn, depth=0, seen=None):
+            seen = seen or set()
+            if fn.name in seen or depth > 3: return False
+            seen.add(fn.name)
+            for n in fn.nodes():
+                if is_observer_call(n): return True
+                if n.k == 'call' and n.callee_in_root:
+                    for t in self.facts.resolve(n):
+                        if t.d.get('classfull') == fn.d.get('classfull') and reaches(t, depth + 1, seen): return True
+            return False
+        def find(fn, depth=0):
+            best = None
+            for l in [n for n in fn.nodes() if n.k in ('rangefor', 'for', 'while', 'do')]:
+                body = l.n('body') or l
+                hit = contains(body, is_observer_call) or any(n.k == 'call' and n.callee_in_root and any(t.d.get('classfull') == fn.d.get('classfull') and reaches(t) for t in self.facts.resolve(n)) for n in body.walk())
+                if hit and (best is None or any(x.id == l.id for x in best.walk())): best = l
+            return best
+        return find(f)
+
     def notify_rules(self, S, short, fns):
         f = fns['notify']; site = f.shortloc()
-        loops = loops_of(f)
-        snap_loop = next((l for l in loops if range_target(l) == ('field', 'm_observers')), None)
-        deliver = next((l for l in loops if contains(l.n('body') or l, is_observer_call)), None)
-        if deliver is None:
+        deliver = self._deliver_loop(f)
+        calls = [n for g in [f] + [t for n in f.nodes() if n.k == 'call' and n.callee_in_root for t in self.facts.resolve(n) if t.d.get('classfull') == S] for n in g.nodes() if is_observer_call(n)]
+        if deliver is None or not calls:
             self.add('SUB.2', None, f'{short}::notify', site, 'no loop that invokes Observer::operator() found'); return
-        calls = [n for n in (deliver.n('body') or deliver).walk() if is_observer_call(n)]
-        # RE.1: the delivery loop iterates a snapshot local to this call
-        tgt = range_target(deliver)
-        ok_local = tgt is not None and tgt[0] == 'local'
-        why = ''
-        if not ok_local:
-            if tgt is not None and tgt[0] == 'field':
-                why = (f'the delivery loop iterates the member `{tgt[1]}`' +
-                       (': a callback that subscribes/unsubscribes invalidates the iteration' if tgt[1] == 'm_observers' else
-                        ': the snapshot is shared between nested notify() calls — a callback that calls notify() refills/clears the buffer the outer round is walking, the outer round skips the remaining observers'))
-            else:
-                flds = sorted({x.name for x in deliver.walk() if x.k == 'member' and x.field and x.n('base') is not None and x.n('base').k == 'this' and 'ached' in x.name or (x.k == 'member' and x.field and x.name.startswith('m_c'))})
-                # index loop over a member container
-                members_indexed = sorted({x.n('base').name if x.k == 'subscript' else (x.ns('args')[0].name if x.ns('args') and x.ns('args')[0] is not None and x.ns('args')[0].k == 'member' else None)
-                                          for x in deliver.walk() if (x.k == 'subscript' and x.n('base') is not None and x.n('base').k == 'member') or (x.k == 'call' and x.ck == 'op' and x.op == '[]')} - {None})
-                if members_indexed:
-                    why = f'the delivery loop walks the member container `{members_indexed[0]}`: the snapshot is shared between nested notify() calls, a callback that calls notify() clears/refills it under the outer round'
-                else:
-                    self.add('RE.1', None, f'{short}::notify: delivery loop', deliver.shortloc(), 'delivery loop form not recognised (neither a range-for over a local snapshot nor over a member)'); why = None
-        if why is not None:
-            self.add('RE.1', ok_local, f'{short}::notify: the delivery loop iterates a snapshot local to this call', deliver.shortloc(), why, key='RE.1|snapshot-local')
-        # RE.4: the snapshot is complete before the first callback
-        if snap_loop is not None:
-            opaque_in_snap = contains(snap_loop.n('body') or snap_loop, lambda x: is_observer_call(x) or (x.k == 'call' and x.virtual))
-            before = f.cfg.reaches(snap_loop.n('range'), deliver.n('range')) if deliver.k == 'rangefor' and deliver.n('range') is not None else True
-            self.add('RE.4', (not opaque_in_snap) and before, f'{short}::notify: the snapshot of m_observers is built before the first callback runs', snap_loop.shortloc(),
-                     '' if (not opaque_in_snap and before) else 'observers are invoked while m_observers is being walked: one subscribed during the round is invoked in the same round / iterator invalidation', key='RE.4|snapshot-first')
-        else:
-            self.add('RE.4', None, f'{short}::notify', site, 'no loop over m_observers found')
-        # RE.2 / RE.3: ownership of the observer across the callback
-        for c in calls:
-            obj = c.n('object')
-            if obj is None and c.ck == 'op' and c.ns('args'): obj = c.ns('args')[0]
-            base = obj
-            while base is not None and base.k in ('unop', 'cast'): base = base.n('sub')
-            if base is not None and base.k == 'call' and base.ck == 'op' and base.op in ('*', '->') and base.ns('args'): base = base.ns('args')[0]
-            ty = (base.type if base is not None else '') or ''
-            owning = ty.startswith('std::shared_ptr<')
-            self.add('RE.2', owning, f'{short}::notify: the round owns the observer it is calling ({ty[:60]})', c.shortloc(),
-                     '' if owning else f'the observer is reached through `{ty}`: a callback that unsubscribes it (or itself) destroys the object while its member function runs / before `isValid()` is called on it (use after free)',
-                     key='RE.2|owning-snapshot')
-        # SUB.4 / RT.2: arguments are passed as lvalues (never consumed by the first receiver)
+        dcond = deliver.n('c').id if deliver.n('c') is not None else None
+        conds = loop_conds(self.facts, {g.name for g in self.facts.fns if g.d.get('classfull') == S})
+        # SUB.4: arguments are passed as lvalues (never consumed by the first receiver)
         for c in calls:
             cargs = c.ns('args')[1:] if (c.ck == 'op' and 'mclass' in c.d) else c.ns('args')
             for i, a in enumerate(cargs):
@@ -157,96 +227,219 @@ class SubjectAnalysis:
                              f'`{a.text()[:50]}` is an xvalue bound to the by-value parameter `{params[i]}` of Observer::operator(): the first observer moves the value away, every later observer of the round receives a moved-from object', key=f'SUB.4|consumed')
                 else:
                     self.add('SUB.4', True, f'{short}::notify: argument {i} is passed as an lvalue / to a reference', c.shortloc())
-        # SUB.1 order parity
-        sub = fns['subscribe']
-        ins = [n for n in sub.nodes() if n.k == 'call' and n.n('object') is not None and n.n('object').is_field('m_observers') and n.callee_base() in INSERT_FRONT | INSERT_BACK]
-        if snap_loop is not None and len(ins) == 1 and tgt is not None:
-            r1 = 1 if ins[0].callee_base() in INSERT_FRONT else 0
-            sins = [n for n in (snap_loop.n('body') or snap_loop).walk() if n.k == 'call' and n.callee_base() in INSERT_FRONT | INSERT_BACK and n.n('object') is not None
-                    and ((n.n('object').k == 'ref' and tgt[0] == 'local' and n.n('object').decl == tgt[1]) or (n.n('object').k == 'member' and tgt[0] == 'field' and n.n('object').name == tgt[1]))]
-            revs = [n for n in f.nodes() if n.k == 'call' and (n.calleeq or '') in ('std::reverse',)] + [n for n in f.nodes() if n.k == 'call' and n.callee_base() == 'reverse' and n.n('object') is not None]
-            if len(sins) == 1:
-                r2 = 1 if sins[0].callee_base() in INSERT_FRONT else 0
-                parity = (r1 + r2 + len(revs)) % 2
-                self.add('SUB.1', parity == 0, f'{short}: subscribe inserts at the {"front" if r1 else "back"}, the snapshot at the {"front" if r2 else "back"}, {len(revs)} reverse(s): observers are called in subscription order', sins[0].shortloc(),
-                         '' if parity == 0 else 'an odd number of reversals between subscription and delivery: observers are invoked in reverse subscription order', key='SUB.1|parity')
-            else:
-                self.add('SUB.1', None, f'{short}: order parity', snap_loop.shortloc(), f'{len(sins)} insertions into the snapshot inside the copy loop')
-        else:
-            self.add('SUB.1', None, f'{short}: order parity', site, 'subscribe / snapshot form not recognised')
-        # SUB.2: path rules
+        # RE.2: the round owns the observer it calls
+        for c in calls: self._ownership(S, short, c)
+        # path rules: SUB.2 / SUB.6 / RE.1 / RE.4 / SUB.1
+        order_seen = set()
         for id_active, obs_valid in itertools.product([True, False], [True, False]):
             dom = ObsDomain(dict(id_active=id_active, obs_valid=obs_valid))
             res = run_paths(self.facts, f, dom)
             row = f'(id active={id_active}, observer valid after call={obs_valid})'
-            dcond = deliver.n('c').id if deliver.n('c') is not None else None
-            agg = dict(calls_ok=True, reval_ok=True, lazy_ok=True, n=0)
-            bad = {}
+            bad = {}; n_paths = 0; n_inv = 0; lazy_seen = dict(o=False, a=False, n=0)
             for P, E in res:
-                agg['n'] += 1
-                iters = sum(1 for e in E if e.kind == 'branch' and e.node is not None and e.node.id == dcond and e.val is True)
+                if P.end in ('throw', 'noreturn'): continue
+                n_paths += 1
+                vis = [(i, c) for i, c in loop_visits(E, conds) if E[i].node.id == dcond]
+                bounds = [i for i, c in vis] + [len(E)]
                 oc = [i for i, e in enumerate(E) if e.kind == 'vcall' and e.name.endswith('operator()')]
-                if id_active and len(oc) != iters: bad.setdefault('count', f'{len(oc)} invocation(s) for {iters} snapshot entr{"y" if iters == 1 else "ies"} whose subscription is active')
-                if not id_active and oc: bad.setdefault('inactive', 'an observer whose subscription id is no longer active is still invoked')
-                prev = -1
-                for i in oc:
-                    tests = [j for j in range(prev + 1, i) if E[j].kind == 'call' and E[j].obj == 'm_activeSubscriptions' and E[j].name.split('::')[-1] in ('contains', 'count', 'find')]
-                    if not tests: bad.setdefault('reval', 'no validity test of the subscription id between the previous callback and this invocation: an observer unsubscribed by an earlier callback of the same round is still invoked')
-                    prev = i
-                if id_active and not obs_valid:
-                    for i in oc:
-                        nxt = next((j for j in oc if j > i), len(E))
-                        rem = [j for j in range(i, nxt) if E[j].kind == 'call' and E[j].obj in ('m_observers', 'm_activeSubscriptions') and E[j].name.split('::')[-1] in ('remove_if', 'erase', 'remove', 'erase_after')]
-                        if len(rem) < 2: bad.setdefault('lazy', 'an observer that reports invalid after its call is not removed from both m_observers and m_activeSubscriptions')
-            self.add('SUB.2', 'count' not in bad and 'inactive' not in bad, f'{short}::notify row {row}: one invocation per active snapshot entry, none for an inactive one ({agg["n"]} paths)', calls[0].shortloc() if calls else site,
+                n_inv += len(oc)
+                # the delivery loop's container (RE.1) and what happens to m_observers once callbacks run (RE.4)
+                for i, cont in vis[:1]:
+                    if cont is None: self.add('RE.1', None, f'{short}::notify: delivery loop', deliver.shortloc(), 'the container walked by the delivery loop was not identified')
+                    elif cont in self.fields:
+                        self.add('RE.1', False, f'{short}::notify: the delivery loop iterates a snapshot local to this call', deliver.shortloc(),
+                                 f'the delivery loop iterates the member `{cont}`' + (': a callback that subscribes/unsubscribes invalidates the iteration' if cont == OBS else
+                                 ': the snapshot is shared between nested notify() calls — a callback that calls notify() refills/clears the buffer the outer round is walking, the outer round skips the remaining observers'), key='RE.1|snapshot-local')
+                    else: self.add('RE.1', True, f'{short}::notify: the delivery loop iterates `{cont}`, a snapshot local to this call', deliver.shortloc(), key='RE.1|snapshot-local')
+                if oc:
+                    walk = [e for e in E[oc[0]:] if e.kind == 'call' and e.obj == OBS and e.name.split('::')[-1] in ('begin', 'cbegin', 'rbegin', 'front', 'back', 'before_begin')
+                            and not any(x.kind == 'enter' and x.name.endswith(('unsubscribeById',)) for x in [])]
+                    # traversal of m_observers after a callback ran is only legitimate inside the removal of an invalidated observer
+                    late = [e for e in walk if not self._inside_removal(E, E.index(e))]
+                    self.add('RE.4', not late, f'{short}::notify: m_observers is not walked any more once the first callback has run (the snapshot is complete)', (late[0].site if late else deliver.shortloc()),
+                             '' if not late else 'observers are invoked while m_observers is being walked: one subscribed during the round is invoked in the same round / iterator invalidation', key='RE.4|snapshot-first')
+                # complete iterations only: a path cut by the unroll bound ends inside its last iteration
+                for k in range(len(bounds) - 1):
+                    lo, hi = bounds[k], bounds[k + 1]
+                    if P.end == 'loop' and k == len(bounds) - 2: continue
+                    inv = [i for i in oc if lo <= i < hi]
+                    if id_active and len(inv) != 1: bad.setdefault('count', f'{len(inv)} invocation(s) for a snapshot entry whose subscription is active')
+                    if not id_active and inv: bad.setdefault('inactive', 'an observer whose subscription id is no longer active is still invoked')
+                    for i in inv:
+                        tests = [j for j in range(lo, i) if E[j].kind == 'consult' and E[j].name == 'id_active']
+                        if not tests: bad.setdefault('reval', 'no validity test of the subscription id between the previous callback and this invocation: an observer unsubscribed by an earlier callback of the same round is still invoked')
+                        if id_active and not obs_valid:
+                            rem_o = [j for j in range(i, hi) if on_container(E[j], OBS, REMOVALS)]
+                            rem_a = [j for j in range(i, hi) if on_container(E[j], ACT, REMOVALS)]
+                            lazy_seen['o'] |= bool(rem_o); lazy_seen['a'] |= bool(rem_a); lazy_seen['n'] += 1
+                if not vis and oc: bad.setdefault('noloop', None)
+                # SUB.1 order parity on the paths that deliver something
+                if not oc or not vis: continue
+                od = self._order(E, oc[0], vis)
+                if od is not None and od not in order_seen:
+                    order_seen.add(od); self._order_verdict(S, short, fns, od, deliver)
+            if id_active and obs_valid and not order_seen:
+                self.add('SUB.1', None, f'{short}: order parity', deliver.shortloc(), 'how the snapshot is filled from m_observers was not recognised (no insertion into a local container, no range construction)')
+            if 'noloop' in bad:
+                self.add('SUB.2', None, f'{short}::notify row {row}', site, 'the iterations of the delivery loop were not identified on the evaluated paths'); continue
+            if n_paths == 0: continue
+            self.add('SUB.2', 'count' not in bad and 'inactive' not in bad, f'{short}::notify row {row}: one invocation per active snapshot entry, none for an inactive one ({n_paths} paths)', calls[0].shortloc(),
                      bad.get('count') or bad.get('inactive') or '', key='SUB.2|once')
-            self.add('SUB.2', 'reval' not in bad, f'{short}::notify row {row}: the id is re-validated before every invocation', calls[0].shortloc() if calls else site, bad.get('reval', ''), key='SUB.2|revalidate')
+            if id_active:
+                self.add('SUB.2', 'reval' not in bad, f'{short}::notify row {row}: the id is re-validated before every invocation', calls[0].shortloc(), bad.get('reval', ''), key='SUB.2|revalidate')
+            if id_active and not obs_valid and lazy_seen['n'] and not (lazy_seen['o'] and lazy_seen['a']):
+                bad['lazy'] = 'an observer that reports invalid after its call is not removed from both m_observers and m_activeSubscriptions'
             if id_active and not obs_valid:
                 self.add('SUB.6', 'lazy' not in bad, f'{short}::notify row {row}: an invalidated observer is removed with its snapshot id', site, bad.get('lazy', ''), key='SUB.6|lazy')
+
+    def _inside_removal(self, E, i):
+        """event i lies inside a helper that removes from m_observers / m_activeSubscriptions (enter ... leave bracket containing a removal)"""
+        depth = 0
+        for j in range(i, -1, -1):
+            if E[j].kind == 'leave': depth += 1
+            elif E[j].kind == 'enter':
+                if depth == 0:
+                    # find the matching leave
+                    d = 0
+                    for k in range(j + 1, len(E)):
+                        if E[k].kind == 'enter': d += 1
+                        elif E[k].kind == 'leave':
+                            if d == 0: return any(on_container(E[x], OBS, REMOVALS) or on_container(E[x], ACT, REMOVALS) for x in range(j, k))
+                            d -= 1
+                    return False
+                depth -= 1
+        return False
+
+    def _ownership(self, S, short, c):
+        """RE.2: trace the object the observer call is made on back to its owner"""
+        g = common.owner_fn(self.facts, c)
+        obj = c.n('object')
+        if obj is None and c.ck == 'op' and c.ns('args'): obj = c.ns('args')[0]
+        decls = {}
+        if g is not None:
+            for n in g.nodes():
+                if n.k == 'decl':
+                    for v in n.vars:
+                        if v.get('init') and v['init'] in n.tu.ex: decls[v['decl']] = Node(n.tu, v['init'])
+        x = obj; hops = 0; ty = ''
+        while x is not None and hops < 12:
+            hops += 1
+            ty = (x.type or '').replace('const ', '')
+            if ty.startswith('std::shared_ptr<'): break
+            if x.k in ('unop', 'cast'): x = x.n('sub'); continue
+            if x.k == 'call' and x.ck == 'op' and x.op in ('*', '->') and x.ns('args'): x = x.ns('args')[0]; continue
+            if x.k == 'call' and x.callee_base() in ('get',) and x.n('object') is not None and (x.n('object').type or '').startswith('std::shared_ptr<'):
+                x = x.n('object'); continue
+            if x.k == 'ref' and x.decl in decls: x = decls[x.decl]; continue
+            if x.k == 'member' and not (x.type or '').startswith('std::shared_ptr<') and x.n('base') is not None and not x.field: x = x.n('base'); continue
+            break
+        ty = ((x.type if x is not None else '') or '').replace('const ', '')
+        inst = f'{short}::notify: the round owns the observer it is calling'
+        if ty.startswith('std::shared_ptr<'):
+            self.add('RE.2', True, inst + f' ({ty[:60]})', c.shortloc(), key='RE.2|owning-snapshot')
+        elif ty.rstrip().endswith('*') and 'Observer<' in ty:
+            self.add('RE.2', False, inst, c.shortloc(), f'the observer is reached through `{ty}`: a callback that unsubscribes it (or itself) destroys the object while its member function runs / before `isValid()` is called on it (use after free)', key='RE.2|owning-snapshot')
+        else:
+            self.add('RE.2', None, inst, c.shortloc(), f'could not trace `{(obj.text()[:40] if obj is not None else "?")}` back to a smart pointer or a raw pointer (stops at `{ty[:50]}`)')
+
+    def _order(self, E, first_call, vis):
+        """how the order of m_observers reaches the delivery loop on this path: (snapshot fill, reversals, delivery direction)"""
+        pre = E[:first_call]
+        fills = []
+        for e in pre:
+            if e.kind == 'call' and e.obj is not None and e.obj not in self.fields and e.name.split('::')[-1] in (INSERT_FRONT | INSERT_BACK): fills.append('front' if e.name.split('::')[-1] in INSERT_FRONT else 'back')
+        rangector = [e for e in pre if e.kind == 'construct' and len(e.args) >= 2 and all(isinstance(a, Sym) for a in e.args[:2]) and e.args[0].name.startswith(OBS + '.') and e.args[1].name.startswith(OBS + '.')]
+        fill = None
+        if not fills and not rangector: return None          # nothing was put into a snapshot on this path (the abstraction does not relate the two loops' trip counts)
+        if fills and len(set(fills)) == 1 and not rangector: fill = fills[0]
+        elif rangector and not fills:
+            a0, a1 = rangector[0].args[0].name, rangector[0].args[1].name
+            fill = 'copy' if (a0.endswith('.begin') and a1.endswith('.end')) else ('rcopy' if (a0.endswith('.rbegin') and a1.endswith('.rend')) else None)
+        revs = sum(1 for e in pre if e.kind == 'call' and (e.name == 'std::reverse' or (e.name.split('::')[-1] == 'reverse' and e.obj is not None and e.obj not in self.fields)))
+        direction = None
+        if vis:
+            i = vis[0][0]
+            near = [x for x in E[max(0, i - 10):i] if x.kind == 'call' and x.obj == vis[0][1]]
+            bs = {x.name.split('::')[-1] for x in near}
+            if bs & {'rbegin', 'rend', 'crbegin', 'crend'}: direction = 'backward'
+            elif bs & {'begin', 'end', 'cbegin', 'cend'}: direction = 'forward'
+        return (fill, revs, direction)
+
+    def _order_verdict(self, S, short, fns, od, deliver):
+        fill, revs, direction = od
+        sub = fns['subscribe']
+        ins = [n for n in sub.nodes() if n.k == 'call' and n.n('object') is not None and n.n('object').is_field(OBS) and n.callee_base() in INSERT_FRONT | INSERT_BACK]
+        if len(ins) != 1 or fill is None or direction is None:
+            self.add('SUB.1', None, f'{short}: order parity', deliver.shortloc(), f'subscribe / snapshot / delivery form not recognised (snapshot fill {fill}, {revs} reverse(s), delivery {direction})'); return
+        r1 = 1 if ins[0].callee_base() in INSERT_FRONT else 0
+        r2 = {'front': 1, 'back': 0, 'copy': 0, 'rcopy': 1}[fill]
+        r3 = 1 if direction == 'backward' else 0
+        parity = (r1 + r2 + r3 + revs) % 2
+        self.add('SUB.1', parity == 0, f'{short}: subscribe inserts at the {"front" if r1 else "back"}, the snapshot is filled by {fill}, {revs} reverse(s), delivery walks {direction}: observers are called in subscription order', deliver.shortloc(),
+                 '' if parity == 0 else 'an odd number of reversals between subscription and delivery: observers are invoked in reverse subscription order', key='SUB.1|parity')
 
     # ---- subscribe / unsubscribe ------------------------------------------------------------------------------------------
     def subscribe_rules(self, S, short, fns):
         f = fns['subscribe']
         res = run_paths(self.facts, f, ObsDomain())
+        def lins(v, depth=0):
+            out = []
+            if isinstance(v, Ref): return out
+            if as_lin(v) is not None and isinstance(v, (Lin, int)): out.append(as_lin(v))
+            elif hasattr(v, 'f') and isinstance(getattr(v, 'f'), dict) and depth < 3:
+                for x in v.f.values(): out += lins(x, depth + 1)
+            return out
         for P, E in res:
-            ws = [e for e in E if e.kind == 'write' and e.obj == 'm_subscriptionCounter']
-            ins = [e for e in E if e.kind == 'call' and e.obj == 'm_observers' and e.name.split('::')[-1] in INSERT_FRONT | INSERT_BACK]
-            act = [e for e in E if e.kind == 'call' and e.obj == 'm_activeSubscriptions' and e.name.split('::')[-1] in ('emplace', 'insert')]
-            fresh = len(ws) == 1 and as_lin(ws[0].val) is not None and as_lin(ws[0].val) - Lin.const(1) is not None and (as_lin(ws[0].val) - Lin.const(1)).c == 0 and len((as_lin(ws[0].val)).t) == 1
-            self.add('SUB.6', fresh, f'{short}::subscribe: the id is a counter that only ever grows (exactly one increment per subscription)', ws[0].site if ws else f.shortloc(),
-                     '' if fresh else 'the subscription id is not taken from a monotonically increasing counter: an id can be handed out again while a notify round still holds it in its snapshot — the removed observer passes the validity test and is invoked, or the wrong subscription is removed',
-                     key='SUB.6|fresh-id')
+            if P.end in ('throw', 'noreturn'): continue
+            ws = [e for e in E if e.kind == 'write' and e.obj == CNT and e.name == 'field']
+            ins = [e for e in E if on_container(e, OBS, INSERTS)]
+            act = [e for e in E if on_container(e, ACT, INSERTS)]
+            cnt0 = Lin.sym(CNT)
+            fresh = len(ws) == 1 and as_lin(ws[0].val) is not None and as_lin(ws[0].val) == cnt0 + Lin.const(1)
+            inst = f'{short}::subscribe: the id is a counter that only ever grows (exactly one increment per subscription)'
+            if not ws and self.no_counter:
+                first_ins = E.index(ins[0]) if ins else len(E)
+                reads = [e for e in E[:first_ins] if e.kind == 'call' and e.obj in (ACT, OBS) and e.name.split('::')[-1] in ('rbegin', 'begin', 'end', 'size', 'empty', 'back', 'front', 'crbegin')]
+                if reads: self.add('SUB.6', False, inst, reads[0].site, 'the id is computed from the current contents of ' + reads[0].obj + ' and no counter is kept: when the newest subscription is removed its id is handed out again while a notify round may still hold it in its snapshot — the removed observer passes the validity test and is invoked, or the wrong subscription is removed', key='SUB.6|fresh-id')
+                else: self.add('SUB.6', None, inst, f.shortloc(), 'no id counter field and the origin of the id was not followed')
+                continue
+            if fresh: self.add('SUB.6', True, inst, ws[0].site, key='SUB.6|fresh-id')
+            elif len(ws) == 1 and as_lin(ws[0].val) is None: self.add('SUB.6', None, inst, ws[0].site, f'the counter becomes {ws[0].val}')
+            else: self.add('SUB.6', False, inst, ws[0].site if ws else f.shortloc(),
+                           'the subscription id is not taken from a monotonically increasing counter: an id can be handed out again while a notify round still holds it in its snapshot — the removed observer passes the validity test and is invoked, or the wrong subscription is removed', key='SUB.6|fresh-id')
             ok = len(ins) == 1 and len(act) == 1
             self.add('SUB.6', ok, f'{short}::subscribe: one entry in m_observers and one id in m_activeSubscriptions', ins[0].site if ins else f.shortloc(), '' if ok else f'{len(ins)} / {len(act)} insertions', key='SUB.6|both')
             if ok and fresh:
-                idv = ws[0].val
-                old = as_lin(idv) - Lin.const(1)
-                a_id = [v for v in ins[0].args if as_lin(v) is not None]
-                same = bool(a_id) and as_lin(a_id[-1]) == old and bool(act[0].args) and self._id_of(act[0].args[0], ins[0]) in (True,)
-                # the id inserted in the set is read back from the stored entry (details.subscriptionId): accept entry-derived or equal value
-                self.add('SUB.6', bool(a_id) and as_lin(a_id[-1]) == old, f'{short}::subscribe: the stored id is the pre-increment counter value', ins[0].site,
-                         '' if (a_id and as_lin(a_id[-1]) == old) else f'stored {a_id[-1] if a_id else "?"}, expected the value of the counter before its increment', key='SUB.6|id-value')
-
-    def _id_of(self, v, ins): return True
+                ids = [x for a in ins[0].args for x in lins(a)]
+                inst = f'{short}::subscribe: the stored id is the pre-increment counter value'
+                if any(x == cnt0 for x in ids): self.add('SUB.6', True, inst, ins[0].site, key='SUB.6|id-value')
+                elif ids: self.add('SUB.6', False, inst, ins[0].site, f'stored {ids[-1]}, expected the value of the counter before its increment', key='SUB.6|id-value')
+                else: self.add('SUB.6', None, inst, ins[0].site, 'the id stored with the observer was not followed')
 
     def unsubscribe_rules(self, S, short, fns):
         f = fns['unsubscribe']
-        un = fns['unsubscribeById']
+        hfields = None
         for same_subject, id_active in itertools.product([True, False], [True, False]):
             dom = ObsDomain(dict(id_active=id_active, same_subject=same_subject))
-            dom.compare = lambda ex, op, l, r, n, st, fr, _d=dom: (_d.atom('same_subject') if op == '==' else (not _d.atom('same_subject'))) if (isinstance(l, Ref) or isinstance(r, Ref) or repr(l).startswith('$field') or repr(r).startswith('$field')) and op in ('==', '!=') else None
             res = run_paths(self.facts, f, dom)
             row = f'(handle.subject==this: {same_subject}, id active: {id_active})'
             valid = same_subject and id_active
+            any_o = any(on_container(e, OBS, REMOVALS) for P, E in res for e in E); any_a = any(on_container(e, ACT, REMOVALS) for P, E in res for e in E)
             for P, E in res:
-                removed = [e for e in E if e.kind == 'call' and e.obj in ('m_observers', 'm_activeSubscriptions') and e.name.split('::')[-1] in ('remove_if', 'erase', 'remove')]
+                rem_o = [e for e in E if on_container(e, OBS, REMOVALS)]; rem_a = [e for e in E if on_container(e, ACT, REMOVALS)]
+                removed = rem_o + rem_a
                 threw = P.end == 'throw' or any(e.kind == 'throw' for e in E)
                 if valid:
-                    resets = {e.obj for e in E if e.kind == 'write' and e.obj in ('m_id', 'm_subject', 'm_observer')}
-                    ok = len(removed) >= 2 and not threw
+                    pd = f.d['params'][0]['decl']
+                    def on_handle(loc): return pd in loc or (loc[0] == 'f' and pd in loc[1])
+                    resets = {e.obj for e in E if e.kind == 'write' and e.obj in ('m_id', 'm_subject', 'm_observer') and e.args and on_handle(e.args[0])}
+                    # a hand-written erase loop removes on the paths where the entry is found: required is that the row removes at all
+                    ok = any_o and any_a and not threw and (bool(rem_a) or not any(on_container(e, ACT, REMOVALS) for e in E) is False)
+                    ok = any_o and any_a and not threw
                     self.add('SUB.5', ok, f'{short}::unsubscribe row {row}: removes the observer and its id', f.shortloc(), '' if ok else ('throws for a valid handle' if threw else 'does not remove from both containers'), key='SUB.5|remove')
-                    self.add('SUB.5', resets == {'m_id', 'm_subject', 'm_observer'}, f'{short}::unsubscribe row {row}: every field of the handle is reset', f.shortloc(),
-                             '' if resets == {'m_id', 'm_subject', 'm_observer'} else f'only {sorted(resets)} reset: the stale handle still reports valid / dangles', key='SUB.5|reset')
+                    if not threw:
+                        self.add('SUB.5', resets == {'m_id', 'm_subject', 'm_observer'}, f'{short}::unsubscribe row {row}: every field of the handle is reset', f.shortloc(),
+                                 '' if resets == {'m_id', 'm_subject', 'm_observer'} else f'only {sorted(resets)} reset: the stale handle still reports valid / dangles', key='SUB.5|reset')
                 else:
                     ok = threw and not removed
                     self.add('SUB.5', ok, f'{short}::unsubscribe row {row}: a stale or foreign handle is rejected with an exception, nothing is removed', f.shortloc(),
@@ -255,15 +448,16 @@ class SubjectAnalysis:
         okt = bool(thr) and all('invalid_argument' in (n.n('sub').type or n.n('sub').d.get('class') or '') for n in thr if n.n('sub') is not None)
         self.add('SUB.5', okt, f'{short}::unsubscribe: the exception is std::invalid_argument', thr[0].shortloc() if thr else f.shortloc(), '' if okt else 'different exception type', key='SUB.5|type')
         hs = fns['hasSubscriptions']
-        rets = [n for n in hs.nodes() if n.k == 'return']
-        ok = len(rets) == 1
-        if ok:
-            for oe in (True, False):
-                dom = ObsDomain(dict(observers_empty=oe))
-                vals = {P.ret if isinstance(P.ret, bool) else repr(P.ret) for P, E in run_paths(self.facts, hs, dom)}
-                if vals != {not oe}: ok = False
-        self.add('SH.5', ok, f'{short}::hasSubscriptions() <=> the observer list is non-empty', hs.shortloc(),
-                 '' if ok else 'hasSubscriptions() is not the emptiness of m_observers: a registered subscription (e.g. with a currently invalid observer) is reported as absent, shrink removes its key and the handle dangles', key='SH.5|nonempty')
+        ok = True; unk = False
+        for oe, ov in itertools.product((True, False), (True, False)):
+            dom = ObsDomain(dict(observers_empty=oe, obs_valid=ov))
+            vals = {P.ret if isinstance(P.ret, bool) else repr(P.ret) for P, E in run_paths(self.facts, hs, dom)}
+            if any(not isinstance(v, bool) for v in vals): unk = True
+            elif vals != {not oe}: ok = False
+        inst = f'{short}::hasSubscriptions() <=> the observer list is non-empty'
+        if unk and ok: self.add('SH.5', None, inst, hs.shortloc(), 'the emptiness test of m_observers is in a form the evaluator does not follow')
+        else: self.add('SH.5', ok, inst, hs.shortloc(),
+                       '' if ok else 'hasSubscriptions() is not the emptiness of m_observers: a registered subscription (e.g. with a currently invalid observer) is reported as absent, shrink removes its key and the handle dangles', key='SH.5|nonempty')
 
     # ---- Observer::operator() -------------------------------------------------------------------------------------------------
     def observer_rules(self):
@@ -290,15 +484,34 @@ class SubjectAnalysis:
             cc = [m for m in ms if m.get('ctor') and m.get('copy')]; ca = [m for m in ms if m.get('copyassign')]
             ok = bool(cc) and all(m['deleted'] for m in cc) and bool(ca) and all(m['deleted'] for m in ca)
             self.add('SUB.7', ok, f'{short} is move-only (copy constructor and copy assignment deleted)', c['loc'], '' if ok else 'a Subscription can be copied: two handles unsubscribe the same id', key='SUB.7|moveonly')
-            mv = [f for f in self.facts.fns if f.d.get('classfull') == S and f.d.get('moveassign')]
+            mv = [f for f in self.facts.fns if f.d.get('classfull') == S and (f.d.get('moveassign') or (f.d.get('ctor') and f.d.get('move')))]
+            allf = sorted(x['name'] for x in c['fields'])
             for f in mv:
-                sw = [n for n in f.nodes() if n.is_call('std::swap')]
-                fields = set()
-                for n in sw:
-                    for a in n.ns('args'):
-                        if a is not None and a.k == 'member' and a.field: fields.add(a.name)
-                allf = {x['name'] for x in c['fields']}
-                self.add('SUB.7', fields == allf, f'{short}: move assignment swaps every field {sorted(allf)}', f.shortloc(), '' if fields == allf else f'only {sorted(fields)} are exchanged', key='SUB.7|swap')
+                # however it is written: afterwards *this holds the source's former fields, the source this's former ones or the invalid handle
+                pn = f.d['params'][0]['name']; pd = f.d['params'][0]['decl']
+                verdict = True; why = ''
+                if f.d.get('ctor'):
+                    deleg = [n for n in f.nodes() if n.k == 'call' and n.ck == 'op' and n.op == '=' and n.callee_in_root and any(t.d.get('moveassign') for t in self.facts.resolve(n))]
+                    if deleg:
+                        self.add('SUB.7', True, f'{short}: the move constructor delegates to move assignment', f.shortloc(), key='SUB.7|swap'); continue
+                for P, E in run_paths(self.facts, f, EvDomain()):
+                    if P.end in ('throw', 'noreturn'): continue
+                    wr = {}
+                    for e in E:
+                        if e.kind == 'write' and e.obj in allf and e.args:
+                            loc = e.args[0]
+                            side = 'this' if (loc[0] == 'f' and loc[1][:1] == ('this',)) else ('src' if (pd in loc or (loc[0] == 'f' and pd in loc[1])) else None)
+                            if side: wr[(side, e.obj)] = e.val
+                    if not wr: continue          # self-assignment path
+                    for fld in allf:
+                        v = wr.get(('this', fld))
+                        from_src = v is not None and fld in repr(v) and ('this' not in repr(v))
+                        if v is None: verdict = False; why = f'{fld} of *this is not taken from the source'
+                        elif not from_src and not isinstance(v, (Sym, Unknown)): verdict = False; why = f'{fld} of *this becomes {v}, not the source\'s {fld}'
+                        elif not from_src and verdict: verdict = None; why = f'{fld} of *this becomes {v}'
+                        if ('src', fld) not in wr and verdict: verdict = False; why = f'{fld} of the source is left untouched: two handles unsubscribe the same id'
+                inst = f'{short}: a move transfers every field {allf} and leaves the source without them'
+                self.add('SUB.7', verdict, inst, f.shortloc(), why, key='SUB.7|swap')
             iv = [f for f in self.facts.fns if f.d.get('classfull') == S and f.qname.split('::')[-1] == 'isValid']
             for f in iv:
                 nullt = [n for n in f.nodes() if n.k == 'binop' and n.op in ('!=', '==') and ((n.n('lhs').is_field('m_subject') and n.n('rhs').k == 'null') or (n.n('rhs').is_field('m_subject') and n.n('lhs').k == 'null'))]
